@@ -25,6 +25,8 @@ package ucfg
 //@ mode bv
 //@ requires c != nil
 //@ ensures [val] err == nil ==> !isNaN(c.f) && c.f >= -pow2f(63) && c.f < pow2f(63)
+//@ ensures [trunc] err == nil ==> result == f2i64(c.f)
+//@ ensures [ok] !isNaN(c.f) && c.f >= -pow2f(63) && c.f < pow2f(63) ==> err == nil
 //@ ensures [err] (isNaN(c.f) || c.f < -pow2f(63) || c.f >= pow2f(63)) ==> err != nil
 
 //@ func (*cfgFloat).toUint
@@ -32,7 +34,9 @@ package ucfg
 //@ mode bv
 //@ requires c != nil
 //@ ensures [val] err == nil ==> !isNaN(c.f) && c.f > -pow2f(0) && c.f < pow2f(64)
-//@ ensures [err] (isNaN(c.f) || c.f < -pow2f(0) || c.f >= pow2f(64)) ==> err != nil
+//@ ensures [trunc] err == nil ==> result == f2u64(c.f)
+//@ ensures [ok] !isNaN(c.f) && c.f >= 0 && c.f < pow2f(64) ==> err == nil
+//@ ensures [err] (isNaN(c.f) || c.f < 0 || c.f >= pow2f(64)) ==> err != nil
 
 //@ ghost func parsesInt(s string) bool
 //@ ghost func intOf(s string) int64 inverse ghost_itoa guard parsesInt
@@ -384,3 +388,187 @@ package ucfg
 //@ requires typeof(elem) == cfgSub ==> elem.(cfgSub).c != nil && elem.(cfgSub).c.fields != nil
 //@ ensures [bound] result == nil ==> 0 <= i.i && i.i <= old(opts.maxIdx)
 //@ ensures [reject] !(0 <= i.i && i.i <= old(opts.maxIdx)) ==> result != nil
+
+// ---------------------------------------------------------------- C03: numeric conversion kernels
+
+//@ func (*cfgInt).toInt
+//@ props C03
+//@ mode bv
+//@ requires c != nil
+//@ ensures [val] err == nil && result == c.i
+
+//@ func (*cfgInt).toFloat
+//@ props C03
+//@ mode bv
+//@ requires c != nil
+//@ ensures [val] err == nil && same(result, fps(c.i))
+
+//@ func (*cfgUint).toUint
+//@ props C03
+//@ mode bv
+//@ requires c != nil
+//@ ensures [val] err == nil && result == c.u
+
+//@ func (*cfgUint).toFloat
+//@ props C03
+//@ mode bv
+//@ requires c != nil
+//@ ensures [val] err == nil && same(result, fpu(c.u))
+
+//@ func (*cfgFloat).toFloat
+//@ props C03
+//@ mode bv
+//@ requires c != nil
+//@ ensures [val] err == nil && same(result, c.f)
+
+//@ func (*cfgBool).toBool
+//@ props C03
+//@ mode bv
+//@ requires c != nil
+//@ ensures [val] err == nil && result == c.b
+
+//@ func (*cfgString).toInt
+//@ props C03
+//@ requires c != nil
+//@ ensures [iff] (err == nil) == parsesInt(c.s)
+//@ ensures [val] err == nil ==> result == intOf(c.s)
+
+//@ func (*cfgString).toUint
+//@ props C03
+//@ requires c != nil
+//@ ensures [iff] (err == nil) == parsesUint(c.s)
+//@ ensures [val] err == nil ==> result == uintOf(c.s)
+
+//@ func (*cfgString).toFloat
+//@ props C03
+//@ requires c != nil
+//@ ensures [iff] (err == nil) == parsesFloat(c.s)
+//@ ensures [val] err == nil ==> result == floatOf(c.s)
+
+//@ func (*cfgString).toBool
+//@ props C03
+//@ requires c != nil
+//@ ensures [iff] (err == nil) == parsesBool(c.s)
+//@ ensures [val] err == nil ==> result == boolOf(c.s)
+
+//@ func (*cfgString).toString
+//@ props C03
+//@ requires c != nil
+//@ ensures [val] err == nil && result == c.s
+
+//@ func (cfgPrimitive).toInt
+//@ props C03
+//@ ensures [err] err != nil
+
+//@ func (cfgPrimitive).toUint
+//@ props C03
+//@ ensures [err] err != nil
+
+//@ func (cfgPrimitive).toFloat
+//@ props C03
+//@ ensures [err] err != nil
+
+//@ func (cfgPrimitive).toBool
+//@ props C03
+//@ ensures [err] err != nil
+
+//@ func (cfgPrimitive).toString
+//@ props C03
+//@ ensures [err] err != nil
+
+// The conversion methods seen through the value interface: assumed to be functions of the value
+// (the ghost functions name "what val.toX returns"); the concrete kernels above pin that down per type.
+//@ ghost func toIntOk(v value) bool
+//@ ghost func toIntVal(v value) int64
+//@ ghost func toUintOk(v value) bool
+//@ ghost func toUintVal(v value) uint64
+//@ ghost func toFloatOk(v value) bool
+//@ ghost func toFloatVal(v value) float64
+//@ ghost func toBoolOk(v value) bool
+//@ ghost func toBoolVal(v value) bool
+//@ ghost func toStringOk(v value) bool
+//@ ghost func toStringVal(v value) string
+
+//@ iface value.toInt :: self, opts -> i, err
+//@ ensures (err == nil) == toIntOk(self)
+//@ ensures err == nil ==> i == toIntVal(self)
+
+//@ iface value.toUint :: self, opts -> u, err
+//@ ensures (err == nil) == toUintOk(self)
+//@ ensures err == nil ==> u == toUintVal(self)
+
+//@ iface value.toFloat :: self, opts -> f, err
+//@ ensures (err == nil) == toFloatOk(self)
+//@ ensures err == nil ==> same(f, toFloatVal(self))
+
+//@ iface value.toBool :: self, opts -> b, err
+//@ ensures (err == nil) == toBoolOk(self)
+//@ ensures err == nil ==> b == toBoolVal(self)
+
+//@ iface value.toString :: self, opts -> s, err
+//@ ensures (err == nil) == toStringOk(self)
+//@ ensures err == nil ==> s == toStringVal(self)
+
+//@ func raiseConversion
+//@ trusted
+//@ pure
+//@ ensures result != nil
+
+//@ pred fitsInt(x int64, bits int) := (bits == 8 ==> -128 <= x && x <= 127) && (bits == 16 ==> -32768 <= x && x <= 32767) && (bits == 32 ==> -2147483648 <= x && x <= 2147483647)
+//@ pred fitsUint(x uint64, bits int) := (bits == 8 ==> x <= 255) && (bits == 16 ==> x <= 65535) && (bits == 32 ==> x <= 4294967295)
+
+//@ func reifyInt
+//@ props C03
+//@ mode bv
+//@ requires val != nil && t != nil
+//@ requires tbits(t) == 8 || tbits(t) == 16 || tbits(t) == 32 || tbits(t) == 64
+//@ ensures [ok] err == nil ==> toIntOk(val) && fitsInt(toIntVal(val), tbits(t)) && rvType(result) == t && rvInt(result) == toIntVal(val)
+//@ ensures [conv] !toIntOk(val) ==> err != nil
+//@ ensures [range] toIntOk(val) && !fitsInt(toIntVal(val), tbits(t)) ==> err != nil
+//@ ensures [accept] toIntOk(val) && fitsInt(toIntVal(val), tbits(t)) ==> err == nil
+
+//@ func reifyUint
+//@ props C03
+//@ mode bv
+//@ requires val != nil && t != nil
+//@ requires tbits(t) == 8 || tbits(t) == 16 || tbits(t) == 32 || tbits(t) == 64
+//@ ensures [ok] err == nil ==> toUintOk(val) && fitsUint(toUintVal(val), tbits(t)) && rvType(result) == t && rvUint(result) == toUintVal(val)
+//@ ensures [conv] !toUintOk(val) ==> err != nil
+//@ ensures [range] toUintOk(val) && !fitsUint(toUintVal(val), tbits(t)) ==> err != nil
+//@ ensures [accept] toUintOk(val) && fitsUint(toUintVal(val), tbits(t)) ==> err == nil
+
+//@ func reifyFloat
+//@ props C03
+//@ mode bv
+//@ requires val != nil && t != nil
+//@ ensures [ok] err == nil ==> toFloatOk(val) && !rvOverflowFloat(t, toFloatVal(val)) && rvType(result) == t && same(rvFloat(result), toFloatVal(val))
+//@ ensures [conv] !toFloatOk(val) ==> err != nil
+//@ ensures [range] toFloatOk(val) && rvOverflowFloat(t, toFloatVal(val)) ==> err != nil
+
+//@ func reifyBool
+//@ props C03
+//@ mode bv
+//@ requires val != nil && t != nil
+//@ ensures [ok] err == nil ==> toBoolOk(val) && rvType(result) == t && rvBool(result) == toBoolVal(val)
+//@ ensures [conv] !toBoolOk(val) ==> err != nil
+
+//@ func convertErr
+//@ props C03 C14
+//@ ensures [iff] (result == nil) == (err == nil)
+
+//@ func raiseInvalidDuration
+//@ trusted
+//@ pure
+//@ ensures result != nil
+
+//@ func reifyDuration :: opts, val, t -> result, err
+//@ props C03
+//@ mode bv
+//@ requires val != nil
+//@ requires typeof(val) == *cfgInt ==> val.(*cfgInt) != nil
+//@ requires typeof(val) == *cfgUint ==> val.(*cfgUint) != nil
+//@ requires typeof(val) == *cfgFloat ==> val.(*cfgFloat) != nil
+//@ requires typeof(val) == *cfgString ==> val.(*cfgString) != nil
+//@ ensures [int %int] typeof(val) == *cfgInt && err == nil ==> typeof(rvAny(result)) == time.Duration && math(rvAny(result).(time.Duration)) == math(old(val.(*cfgInt).i)) * mathlit(1000000000)
+//@ ensures [uint %int] typeof(val) == *cfgUint && err == nil ==> typeof(rvAny(result)) == time.Duration && math(rvAny(result).(time.Duration)) == math(old(val.(*cfgUint).u)) * mathlit(1000000000)
+//@ ensures [float] typeof(val) == *cfgFloat && err == nil ==> typeof(rvAny(result)) == time.Duration && !isNaN(old(val.(*cfgFloat).f)) && old(val.(*cfgFloat).f) * 1000000000 >= -pow2f(63) && old(val.(*cfgFloat).f) * 1000000000 < pow2f(63) && rvAny(result).(time.Duration) == f2i64(old(val.(*cfgFloat).f) * 1000000000)
